@@ -14,7 +14,7 @@ open Closure Morph MorphG C11L
 /-- the state in which the body of the pipeline starts: candidate `l` in hand -/
 def startState (st : MG) (l : PS) : MG :=
   { mf := { st.mf with lighting := l },
-    ghost := { st.ghost with cand := some l, spare := [], pristine := true } }
+    ghost := { st.ghost with cand := some l, spare := [], pristine := true, verdict := false } }
 
 theorem pipelineG_eq (l : PS) :
     pipelineG l = ((monadLift (setLighting l) : GM Unit) >>= fun _ => startG l >>= fun _ => pipelineBodyG) := by
@@ -35,7 +35,7 @@ theorem runPipelineG_eq (st : MG) (l : PS) :
 
 theorem runPipelineG_inv (c : Ctx) (hE : FrameLen c) (st : MG) (l : PS) (h : Inv c (startState st l)) :
     Inv c (runPipelineG st l).2 := by
-  rw [runPipelineG_eq]; exact pres_pipelineBody c hE _ h
+  rw [runPipelineG_eq]; exact pres_pipelineBody (primPres_inv c hE) _ h
 
 /-- the ghost flag never comes back -/
 theorem ok_mono_run (st : MG) (l : PS) (h : (runPipelineG st l).2.ghost.ok = true) :
